@@ -244,7 +244,7 @@ class Contract:
     def __init__(self, target, props, params, pre=(), post=(), raises=None, post_exc=None, modifies=(),
                  returns=None, loops=None, unroll=None, inline=(), locals_=None, globals_=None,
                  build=None, always_inline=False, assume_noraise=False, any_raises=None, note="",
-                 ghost_pre=(), checks=None, max_cases=400, enter=(), obj_fields=None, obj_protocol=None, ghost=None, mutable_fields=(), obj_methods=None, opaque_methods=None, aliases=None, regex_total=None, lemmas=(), assumed=None, opaque_classes=(), post_internal=()):
+                 ghost_pre=(), checks=None, max_cases=400, enter=(), obj_fields=None, obj_protocol=None, ghost=None, mutable_fields=(), obj_methods=None, opaque_methods=None, aliases=None, regex_total=None, lemmas=(), assumed=None, opaque_classes=(), post_internal=(), partial_domain=None):
         self.target = target
         self.props = list(props)
         self.params = dict(params)
@@ -278,6 +278,7 @@ class Contract:
         self.opaque_classes = set(opaque_classes)
         # postconditions over ghost state of the function's own run: proved, but not assumed at call sites
         self.post_internal = list(post_internal)
+        self.partial_domain = partial_domain   # reason why some normal exits are outside the parameter domain of this contract
         self.assumed = assumed   # reason: the contract is used at call sites but its function is NOT verified
         self._alias_map = None
         REGISTRY[target] = self
